@@ -446,6 +446,15 @@ def cases(tier, seed):
            "reinit": False, "double": "overlap", "idle": 1000.0, "anchor": "D18"}
     yield {"gen": 4, "tl": "sock_stalled", "trigs": [["iter", k] for k in range(18, 27)],
            "reinit": False, "double": "overlap", "idle": 1000.0, "anchor": "D18b"}
+    # a command whose write failed inside an application task, shutdown at every single loop
+    # iteration of that timeline, and a second life half a second later: nothing of the first
+    # life's is written in the second
+    for gen in (4, 5):
+        K, _times = reference(gen, "wfault")
+        trigs = [["iter", k] for k in range(1, K + 1)]
+        for i in range(0, len(trigs), 12):
+            yield {"gen": gen, "tl": "wfault", "trigs": trigs[i:i + 12], "reinit": True,
+                   "idle": 0.5, "double": False}
     for gen in (4, 5):
         for state in ("never_opened", "closed", "closed_in_backoff", "closed_twice"):
             yield {"k": "closed_send", "gen": gen, "state": state}
